@@ -156,11 +156,22 @@ def run(replay=None):
             cd = [h2d(x) for x in mf[6:9]]
             smooth = h2d(mf[9])
             mvars = dict(x.split(":") for x in mf[11].split(",")) if len(mf) > 11 and mf[11] != "vcd" else {}
+            # conditioning probe of the model (spread of its own gradient under one-ulp noise on every
+            # rounded result): where rounding alone can move the gradient by more than the tolerance
+            # (x/x with a huge dx, catastrophic cancellation; fused multiply-add and the optimiser's
+            # pointer-order-dependent association make the implementation differ there) nothing is compared
+            cond = 0.0
+            if "cond" in mf:
+                cond = h2d(mf[mf.index("cond") + 1]); mf = mf[:mf.index("cond")]
             vcd = [h2d(x) for x in mf[-1].split(",")] if mf[-2] == "vcd" and mf[-1] != "vcd" else []
             gi = [h2f(x) for x in g]
             gm = [h2f(x) for x in mg]
             finite = all(math.isfinite(x) for x in gi + gm + cd) and math.isfinite(smooth) and math.isfinite(h2f(val))
             vscale = 1.0 + (abs(h2f(val)) if math.isfinite(h2f(val)) else 0.0)
+            gmax = max([abs(x) for x in gm if math.isfinite(x)] + [0.0])
+            if not (16 * cond <= 1e-5 * vscale + 5e-4 * gmax):
+                stats["illconditioned_skipped"] = stats.get("illconditioned_skipped", 0) + 1
+                continue
             if all(close(a, b, 5e-4, 1e-5 * vscale) for a, b in zip(gi, gm)) and \
                all(close(h2f(hvars[k2]), h2f(mvars[k2]), 5e-4, 1e-5 * vscale) for k2 in hvars if k2 in mvars):
                 stats["model_close"] += 1
